@@ -1,4 +1,5 @@
 import RedisEmu.Block
+import RedisEmu.Wake
 import Mathlib.Tactic.SplitIfs
 /-
   C11 — blocking pops (partial). Theorems about the transition system `RedisEmu.Block`: they hold for
@@ -252,5 +253,334 @@ theorem next_push_wakes_it (s : BState) (c : Nat) (xs : List Nat) (hq : s.queue 
 example :
     let s := brun {} [.register, .register, .register, .push [7], .steal, .retry 0, .push [8], .retry 0]
     s.delivered = [(0, 8)] ∧ s.queue = [1, 2] := by decide
+
+/-! ### no lost wake-up
+
+The accounting model `RedisEmu.Wake`: a client that registers will look at the list once more
+(`pending`), a push hands out one token per element to the queue heads, a token holder retries, and a
+client that leaves with an unused token passes it on (the repaired behaviour, D84). -/
+
+
+structure WFull (s : WState) : Prop where
+  acc : s.list.length ≤ s.pending.length + s.token.length ∨ ∀ c ∈ s.queue, c ∈ s.pending
+  qnodup : s.queue.Nodup
+  qfresh : ∀ c ∈ s.queue, c < s.nextId
+  tfresh : ∀ c ∈ s.token, c < s.nextId
+  disj : ∀ c ∈ s.token, c ∉ s.queue
+  tnodup : s.token.Nodup
+
+theorem wfull_init : WFull {} := by
+  constructor <;> simp
+
+/-- `wakeOne` keeps the bookkeeping facts and adds a token unless nobody is queued -/
+theorem wakeOne_spec (s : WState) (hn : s.queue.Nodup) (hq : ∀ c ∈ s.queue, c < s.nextId)
+    (ht : ∀ c ∈ s.token, c < s.nextId) (hd : ∀ c ∈ s.token, c ∉ s.queue) (htn : s.token.Nodup) :
+    (wakeOne s).list = s.list ∧ (wakeOne s).pending = s.pending ∧ (wakeOne s).nextId = s.nextId ∧
+    (wakeOne s).queue.Nodup ∧ (∀ c ∈ (wakeOne s).queue, c ∈ s.queue) ∧
+    (∀ c ∈ (wakeOne s).token, c < s.nextId) ∧ (∀ c ∈ (wakeOne s).token, c ∉ (wakeOne s).queue) ∧
+    (((wakeOne s).token.length = s.token.length + 1) ∨ (wakeOne s).queue = []) ∧ (wakeOne s).token.Nodup := by
+  unfold wakeOne
+  cases hq' : s.queue with
+  | nil =>
+    simp only
+    refine ⟨trivial, trivial, trivial, by simp [hq'], by simp [hq'], ht, ?_, Or.inr hq', htn⟩
+    intro c hc; simp [hq']
+  | cons h r =>
+    simp only
+    have hn' : (h :: r).Nodup := hq' ▸ hn
+    refine ⟨trivial, trivial, trivial, (List.nodup_cons.mp hn').2, ?_, ?_, ?_, Or.inl (by simp), ?_⟩
+    · intro c hc; exact List.mem_cons_of_mem _ hc
+    · intro c hc
+      rcases List.mem_append.mp hc with hc | hc
+      · exact ht c hc
+      · simp at hc; subst hc; exact hq c (by rw [hq']; exact List.mem_cons_self)
+    · intro c hc hcr
+      rcases List.mem_append.mp hc with hc | hc
+      · exact hd c hc (by rw [hq']; exact List.mem_cons_of_mem _ hcr)
+      · simp at hc; subst hc; exact (List.nodup_cons.mp hn').1 hcr
+    · refine List.nodup_append.mpr ⟨htn, by simp, ?_⟩
+      intro a ha b hb hab
+      simp at hb; subst hb; subst hab
+      exact hd _ ha (by rw [hq']; exact List.mem_cons_self)
+
+/-- a client leaves the wait lists holding a token it never used, and passes it on -/
+theorem pass_on (s s1 : WState) (c : Nat) (h : WFull s) (hc : c ∈ s.token)
+    (hni : s1.nextId = s.nextId) (hq1 : s1.queue = s.queue.erase c) (ht1 : s1.token = s.token.erase c)
+    (hacc : s1.list.length ≤ s1.pending.length + s.token.length ∨ ∀ d ∈ s1.queue, d ∈ s1.pending) :
+    WFull (wakeOne s1) := by
+  have hn1 : s1.queue.Nodup := by rw [hq1]; exact h.qnodup.erase c
+  have hqf1 : ∀ d ∈ s1.queue, d < s1.nextId := by
+    intro d hd; rw [hni]; rw [hq1] at hd; exact h.qfresh d (List.mem_of_mem_erase hd)
+  have htf1 : ∀ d ∈ s1.token, d < s1.nextId := by
+    intro d hd; rw [hni]; rw [ht1] at hd; exact h.tfresh d (List.mem_of_mem_erase hd)
+  have hd1 : ∀ d ∈ s1.token, d ∉ s1.queue := by
+    intro d hd hq
+    rw [ht1] at hd; rw [hq1] at hq
+    exact h.disj d (List.mem_of_mem_erase hd) (List.mem_of_mem_erase hq)
+  have htn1 : s1.token.Nodup := by rw [ht1]; exact h.tnodup.erase c
+  obtain ⟨wl, wp, wn, wnd, wsub, wtf, wdj, wlen, wtn⟩ := wakeOne_spec s1 hn1 hqf1 htf1 hd1 htn1
+  have hlen : s1.token.length + 1 = s.token.length := by
+    rw [ht1, List.length_erase_of_mem hc]
+    have : 0 < s.token.length := List.length_pos_of_mem hc
+    omega
+  constructor
+  · rw [wl, wp]
+    rcases wlen with e | e
+    · rcases hacc with a | a
+      · left; omega
+      · right; intro d hd; exact a d (wsub d hd)
+    · right; intro d hd; rw [e] at hd; cases hd
+  · exact wnd
+  · intro d hd; rw [wn]; exact hqf1 d (wsub d hd)
+  · intro d hd; rw [wn]; exact wtf d hd
+  · exact wdj
+  · exact wtn
+
+theorem look_not_pending (b : Bool) (s : WState) (c : Nat) (h : c ∉ s.pending) : wstep b s (.look c) = s := by
+  simp [wstep, h]
+
+theorem look_empty (b : Bool) (s : WState) (c : Nat) (h : c ∈ s.pending) (hl : s.list = []) :
+    wstep b s (.look c) = { s with pending := s.pending.erase c } := by
+  simp [wstep, h, hl]
+
+theorem look_pop_plain (b : Bool) (s : WState) (c x : Nat) (r : List Nat) (h : c ∈ s.pending) (hl : s.list = x :: r)
+    (ht : c ∉ s.token) :
+    wstep b s (.look c) = { s with list := r, pending := s.pending.erase c, queue := s.queue.erase c } := by
+  simp [wstep, h, hl, ht]
+
+theorem look_pop_token (s : WState) (c x : Nat) (r : List Nat) (h : c ∈ s.pending) (hl : s.list = x :: r)
+    (ht : c ∈ s.token) :
+    wstep true s (.look c) =
+      wakeOne { s with list := r, pending := s.pending.erase c, queue := s.queue.erase c, token := s.token.erase c } := by
+  simp [wstep, h, hl, ht]
+
+theorem retry_idle (b : Bool) (s : WState) (c : Nat) (h : ¬ (c ∈ s.token ∧ c ∉ s.pending)) : wstep b s (.retry c) = s := by
+  simp only [wstep, h, if_false]
+
+theorem retry_pop (b : Bool) (s : WState) (c x : Nat) (r : List Nat) (h : c ∈ s.token ∧ c ∉ s.pending) (hl : s.list = x :: r) :
+    wstep b s (.retry c) = { s with list := r, token := s.token.erase c } := by
+  simp [wstep, h.1, h.2, hl]
+
+theorem retry_vain (b : Bool) (s : WState) (c : Nat) (h : c ∈ s.token ∧ c ∉ s.pending) (hl : s.list = []) :
+    wstep b s (.retry c) = { s with token := s.token.erase c, queue := s.queue ++ [c] } := by
+  simp [wstep, h.1, h.2, hl]
+
+theorem leave_pending (b : Bool) (s : WState) (c : Nat) (h : c ∈ s.pending) : wstep b s (.leave c) = s := by
+  simp [wstep, h]
+
+theorem leave_plain (b : Bool) (s : WState) (c : Nat) (h : c ∉ s.pending) (ht : c ∉ s.token) :
+    wstep b s (.leave c) = { s with queue := s.queue.erase c } := by
+  simp [wstep, h, ht]
+
+theorem leave_token (s : WState) (c : Nat) (h : c ∉ s.pending) (ht : c ∈ s.token) :
+    wstep true s (.leave c) = wakeOne { s with queue := s.queue.erase c, token := s.token.erase c } := by
+  simp [wstep, h, ht]
+
+theorem len_erase (l : List Nat) (c : Nat) (h : c ∈ l) : (l.erase c).length + 1 = l.length := by
+  rw [List.length_erase_of_mem h]
+  have : 0 < l.length := List.length_pos_of_mem h
+  omega
+
+theorem wfull_step (s : WState) (st : WStep) (h : WFull s) : WFull (wstep true s st) := by
+  cases st with
+  | push xs =>
+    simp only [wstep]
+    have hsplit := List.take_append_drop (min xs.length s.queue.length) s.queue
+    have hpw : (s.queue.take (min xs.length s.queue.length) ++ s.queue.drop (min xs.length s.queue.length)).Nodup := by
+      rw [hsplit]; exact h.qnodup
+    constructor
+    · simp only [List.length_append, List.length_take]
+      by_cases hle : xs.length ≤ s.queue.length
+      · rcases h.acc with a | a
+        · left; simp only [Nat.min_eq_left hle]; omega
+        · right; intro c hc; exact a c (List.mem_of_mem_drop hc)
+      · right
+        intro c hc
+        have : min xs.length s.queue.length = s.queue.length := Nat.min_eq_right (by omega)
+        rw [this, List.drop_length] at hc; cases hc
+    · exact (List.nodup_append.mp hpw).2.1
+    · intro c hc; exact h.qfresh c (List.mem_of_mem_drop hc)
+    · intro c hc
+      rcases List.mem_append.mp hc with hc | hc
+      · exact h.tfresh c hc
+      · exact h.qfresh c (List.mem_of_mem_take hc)
+    · intro c hc hd
+      rcases List.mem_append.mp hc with hc | hc
+      · exact h.disj c hc (List.mem_of_mem_drop hd)
+      · exact (List.nodup_append.mp hpw).2.2 c hc c hd rfl
+    · refine List.nodup_append.mpr ⟨h.tnodup, (List.nodup_append.mp hpw).1, ?_⟩
+      intro a ha b hb hab
+      subst hab
+      exact h.disj a ha (List.mem_of_mem_take hb)
+  | register =>
+    simp only [wstep]
+    constructor <;> dsimp only
+    · rcases h.acc with a | a
+      · left; simp only [List.length_append, List.length_cons, List.length_nil]; omega
+      · right
+        intro c hc
+        rcases List.mem_append.mp hc with hc | hc
+        · exact List.mem_append_left _ (a c hc)
+        · exact List.mem_append_right _ hc
+    · refine List.nodup_append.mpr ⟨h.qnodup, by simp, ?_⟩
+      intro a ha b hb hab
+      simp at hb; subst hb; subst hab
+      exact Nat.lt_irrefl _ (h.qfresh _ ha)
+    · intro c hc
+      rcases List.mem_append.mp hc with hc | hc
+      · have := h.qfresh c hc; omega
+      · simp at hc; omega
+    · intro c hc; have := h.tfresh c hc; omega
+    · intro c hc hd
+      rcases List.mem_append.mp hd with hd | hd
+      · exact h.disj c hc hd
+      · simp at hd; have := h.tfresh c hc; omega
+    · exact h.tnodup
+  | look c =>
+    by_cases hp : c ∈ s.pending
+    · have hmem : (∀ d ∈ s.queue, d ∈ s.pending) → ∀ d ∈ s.queue.erase c, d ∈ s.pending.erase c := by
+        intro a d hd
+        have hdc : d ≠ c := by
+          intro e; subst e
+          exact (List.Nodup.mem_erase_iff h.qnodup).mp hd |>.1 rfl
+        exact (List.mem_erase_of_ne hdc).mpr (a d (List.mem_of_mem_erase hd))
+      have hplen := len_erase s.pending c hp
+      cases hl : s.list with
+      | nil =>
+        rw [look_empty true s c hp hl]
+        exact ⟨Or.inl (by simp [hl]), h.qnodup, h.qfresh, h.tfresh, h.disj, h.tnodup⟩
+      | cons x r =>
+        by_cases htk : c ∈ s.token
+        · rw [look_pop_token s c x r hp hl htk]
+          refine pass_on s { list := r, queue := s.queue.erase c, pending := s.pending.erase c, token := s.token.erase c, nextId := s.nextId } c h htk rfl rfl rfl ?_
+          dsimp only
+          rcases h.acc with a | a
+          · left; rw [hl] at a; simp only [List.length_cons] at a; omega
+          · right; exact hmem a
+        · rw [look_pop_plain true s c x r hp hl htk]
+          constructor <;> dsimp only
+          · rcases h.acc with a | a
+            · left; rw [hl] at a; simp only [List.length_cons] at a; omega
+            · right; exact hmem a
+          · exact h.qnodup.erase c
+          · intro d hd; exact h.qfresh d (List.mem_of_mem_erase hd)
+          · exact h.tfresh
+          · intro d hd hq; exact h.disj d hd (List.mem_of_mem_erase hq)
+          · exact h.tnodup
+    · rw [look_not_pending true s c hp]; exact h
+  | retry c =>
+    by_cases hc : c ∈ s.token ∧ c ∉ s.pending
+    · have htlen := len_erase s.token c hc.1
+      cases hl : s.list with
+      | nil =>
+        rw [retry_vain true s c hc hl]
+        constructor <;> dsimp only
+        · left; simp [hl]
+        · refine List.nodup_append.mpr ⟨h.qnodup, by simp, ?_⟩
+          intro a ha b hb hab
+          simp at hb; subst hb; subst hab
+          exact h.disj _ hc.1 ha
+        · intro d hd
+          rcases List.mem_append.mp hd with hd | hd
+          · exact h.qfresh d hd
+          · simp at hd; subst hd; exact h.tfresh _ hc.1
+        · intro d hd; exact h.tfresh d (List.mem_of_mem_erase hd)
+        · intro d hd hq
+          rcases List.mem_append.mp hq with hq | hq
+          · exact h.disj d (List.mem_of_mem_erase hd) hq
+          · simp at hq; subst hq
+            -- a token is held once: after giving it up the client holds none
+            exact (List.Nodup.mem_erase_iff h.tnodup).mp hd |>.1 rfl
+        · exact h.tnodup.erase c
+      | cons x r =>
+        rw [retry_pop true s c x r hc hl]
+        constructor <;> dsimp only
+        · rcases h.acc with a | a
+          · left; rw [hl] at a; simp only [List.length_cons] at a; omega
+          · right; exact a
+        · exact h.qnodup
+        · exact h.qfresh
+        · intro d hd; exact h.tfresh d (List.mem_of_mem_erase hd)
+        · intro d hd hq; exact h.disj d (List.mem_of_mem_erase hd) hq
+        · exact h.tnodup.erase c
+    · rw [retry_idle true s c hc]; exact h
+  | steal =>
+    simp only [wstep]
+    constructor <;> dsimp only
+    · rcases h.acc with a | a
+      · left; simp only [List.length_drop]; omega
+      · right; exact a
+    · exact h.qnodup
+    · exact h.qfresh
+    · exact h.tfresh
+    · exact h.disj
+    · exact h.tnodup
+  | leave c =>
+    by_cases hp : c ∈ s.pending
+    · rw [leave_pending true s c hp]; exact h
+    · by_cases htk : c ∈ s.token
+      · rw [leave_token s c hp htk]
+        refine pass_on s { list := s.list, queue := s.queue.erase c, pending := s.pending, token := s.token.erase c, nextId := s.nextId } c h htk rfl rfl rfl ?_
+        dsimp only
+        rcases h.acc with a | a
+        · left; exact a
+        · right; intro d hd; exact a d (List.mem_of_mem_erase hd)
+      · rw [leave_plain true s c hp htk]
+        constructor <;> dsimp only
+        · rcases h.acc with a | a
+          · left; exact a
+          · right; intro d hd; exact a d (List.mem_of_mem_erase hd)
+        · exact h.qnodup.erase c
+        · intro d hd; exact h.qfresh d (List.mem_of_mem_erase hd)
+        · exact h.tfresh
+        · intro d hd hq; exact h.disj d hd (List.mem_of_mem_erase hq)
+        · exact h.tnodup
+
+
+/-- the bookkeeping invariant holds after every interleaving of pushes, registrations, first looks,
+    retries, steals and departures -/
+theorem wfull_reachable (steps : List WStep) : WFull (wrun true {} steps) := by
+  have : ∀ s, WFull s → WFull (wrun true s steps) := by
+    induction steps with
+    | nil => intro s h; exact h
+    | cons st r ih => intro s h; exact ih _ (wfull_step s st h)
+  exact this {} wfull_init
+
+/-- **No lost wake-up.** In every reachable state: if the list holds elements while some client is
+    registered and passively waiting for a wake-up, then at least as many clients are about to look at the
+    list (their first look after registering is still to come, or they hold a wake-up token) as there are
+    elements. In particular, once nobody is in motion, a non-empty list means nobody is waiting:
+    no client stays blocked on a list that holds data. -/
+theorem no_lost_wakeup (steps : List WStep) :
+    let s := wrun true {} steps
+    s.list.length ≤ s.pending.length + s.token.length ∨ ∀ c ∈ s.queue, c ∈ s.pending :=
+  (wfull_reachable steps).acc
+
+theorem quiescent_means_served (steps : List WStep)
+    (hp : (wrun true {} steps).pending = []) (ht : (wrun true {} steps).token = [])
+    (hl : (wrun true {} steps).list ≠ []) :
+    (wrun true {} steps).queue = [] := by
+  rcases no_lost_wakeup steps with a | a
+  · rw [hp, ht] at a
+    simp only [List.length_nil, Nat.add_zero, Nat.le_zero] at a
+    exact absurd (List.eq_nil_of_length_eq_zero a) hl
+  · rw [hp] at a
+    cases hq : (wrun true {} steps).queue with
+    | nil => rfl
+    | cons c r => exact absurd (a c (by rw [hq]; exact List.mem_cons_self)) (by simp)
+
+/-- D84 on the code before the repair: two clients wait; a push wakes the older one, which leaves at
+    that moment (its timeout, CLIENT UNBLOCK) — the element stays in the list, nobody is in motion, and
+    the younger client is still blocked -/
+theorem lost_wakeup_before_repair :
+    let s := wrun false {} [.register, .look 0, .register, .look 1, .push [7], .leave 0]
+    s.list = [7] ∧ s.pending = [] ∧ s.token = [] ∧ s.queue = [1] := by
+  decide
+
+/-- the same schedule on the repaired code: the wake-up is passed on -/
+example :
+    let s := wrun true {} [.register, .look 0, .register, .look 1, .push [7], .leave 0, .retry 1]
+    s.list = [] ∧ s.queue = [] ∧ s.token = [] := by
+  decide
 
 end RedisEmu
